@@ -1,8 +1,9 @@
 #!/bin/sh
-# Offline setup: warm the Go build cache with the harness test binaries.
+# Offline setup: warm the Go build cache with the harness test binaries (plain and race-instrumented).
 set -e
 cd "$(dirname "$0")/harness"
 export GOFLAGS=-mod=mod GOPROXY=off GOSUMDB=off GOTOOLCHAIN=local
 [ -f go.sum ] || cp /repo/go.sum go.sum
 mkdir -p bin
 go test -c -vet=off -o bin/props.test ./props
+go test -c -vet=off -race -o bin/props.race.test ./props
